@@ -368,6 +368,10 @@ val dc_entries_pol :
 
 val dict_update : (z * val0) list -> (z * val0) list -> (z * val0) list
 
+val has_key : z -> (z * val0) list -> bool
+
+val keep_keys : (z * val0) list -> (z * val0) list -> (z * val0) list
+
 val copy_M : consts -> heap -> loc -> (heap * loc) option
 
 val max_class_scalar : heap -> (z * val0) list -> z -> z
@@ -429,6 +433,8 @@ type op =
 | OSetAttrNested of z * z list list
 | OSetAttrSet of z * z list
 | OReplaceSeries of z * z list
+
+val list_eqb : ('a1 -> 'a1 -> bool) -> 'a1 list -> 'a1 list -> bool
 
 val is_empty_trace : heap -> loc -> z -> bool
 
@@ -501,8 +507,6 @@ type hevent =
 val run_hevent : consts -> state -> hevent -> state
 
 val run_hevents : consts -> state -> hevent list -> state
-
-val list_eqb : ('a1 -> 'a1 -> bool) -> 'a1 list -> 'a1 list -> bool
 
 val path_eqb : z list -> z list -> bool
 
